@@ -6,6 +6,7 @@ import (
 	"strings"
 	"testing"
 	"time"
+	"unicode/utf8"
 
 	otp "github.com/ja7ad/otp"
 	"pgregory.net/rapid"
@@ -313,9 +314,41 @@ func drawC10(t *rapid.T) c10Case {
 	mask := rapid.IntRange(0, 31).Draw(t, "fields")
 	c.Cfg = ref.OCRACfg{Raw: string(c.S[3]), Hash: rapid.SampledFrom([]int{0, 1, 2, 3, 4, 200, 255}).Draw(t, "cfgHash"), Digits: ii("cfgDigits"),
 		C: mask&1 != 0, Q: mask&2 != 0, P: mask&4 != 0, S: mask&8 != 0, T: mask&16 != 0, QFormat: ii("cfgQ"), PHash: ii("cfgP"), TimeStep: ii("cfgT"), SessionNN: -1}
-	if rapid.Bool().Draw(t, "cfgSane") {
+	switch rapid.IntRange(0, 3).Draw(t, "cfgMode") {
+	case 0: // everything arbitrary
+		h = true
+	case 1: // usable configuration
 		c.Cfg.Hash, c.Cfg.Digits, c.Cfg.QFormat, c.Cfg.PHash, c.Cfg.TimeStep = c.Algo%3, 4+c.Digits%7, 1+c.Digits%6, 1+c.Algo%3, 1
-	} else {
+	default:
+		// usable configuration with admissible inputs, then ONE hostile ingredient: an enum value outside
+		// its range that the suite check lets through, or one byte field of an odd / huge length
+		c.Cfg.Hash, c.Cfg.Digits, c.Cfg.QFormat, c.Cfg.PHash, c.Cfg.TimeStep = c.Algo%3, 4+c.Digits%7, 1+c.Digits%6, 1+c.Algo%3, 1
+		c.BNil = [5]bool{}
+		c.B[0], c.B[4] = make([]byte, 8), make([]byte, 8)
+		c.B[1] = make([]byte, rapid.IntRange(ref.QMin(c.Cfg.QFormat), 128).Draw(t, "okQ"))
+		c.B[2] = make([]byte, ref.PLen(c.Cfg.PHash))
+		c.B[3] = make([]byte, rapid.IntRange(0, 128).Draw(t, "okS"))
+		if !utf8.ValidString(c.Cfg.Raw) || rapid.Bool().Draw(t, "plainRaw") {
+			c.Cfg.Raw = rapid.SampledFrom([]string{"OCRA-1:HOTP-SHA1-6:QN08", "", strings.Repeat("r", 250), strings.Repeat("r", 400)}).Draw(t, "rawPick")
+		}
+		odd := []int{0, 1, 7, 9, 19, 21, 33, 63, 65, 100, 127, 129, 200, 255, 257, 1000, 65536}
+		switch rapid.IntRange(0, 5).Draw(t, "ingredient") {
+		case 0:
+			c.Cfg.PHash = rapid.SampledFrom([]int{4, 5, 255, -1, 1 << 31, -1 << 63}).Draw(t, "oddPHash")
+			c.B[2] = make([]byte, rapid.SampledFrom(odd[1:]).Draw(t, "pLen"))
+		case 1:
+			c.Cfg.QFormat = rapid.SampledFrom([]int{7, 8, 255, -1, 1 << 31, -1 << 63}).Draw(t, "oddQFormat")
+			c.B[1] = make([]byte, rapid.SampledFrom(odd).Draw(t, "qLen"))
+		case 2:
+			c.Cfg.TimeStep = rapid.SampledFrom([]int{1<<63 - 1, 1 << 31, 3600}).Draw(t, "oddStep")
+		case 3:
+			k := rapid.IntRange(0, 4).Draw(t, "oddField")
+			c.B[k] = make([]byte, rapid.SampledFrom(odd).Draw(t, "oddLen"))
+		case 4:
+			c.BNil[rapid.IntRange(0, 4).Draw(t, "nilField")] = true
+		default:
+			c.Cfg.Digits = rapid.SampledFrom([]int{4, 10}).Draw(t, "edgeDigits")
+		}
 		h = true
 	}
 	c.SuiteBy = rapid.IntRange(0, 3).Draw(t, "suiteBy")
